@@ -264,7 +264,10 @@ def run(tier, seed):
     cses = (True, False)
     from .common import pmap_staged
 
-    for d in pmap_staged(_dispatch, [(task_regimes, (p, True, tier, seed)) for p in ps], [(task, (p, cse, tier, seed)) for p in ps for cse in cses]):
+    from .common import with_extra_validation
+
+    extra = [(with_extra_validation, (task, CP.P3(), True, tier, seed)), (with_extra_validation, (task, CP.P12(), False, tier, seed))]
+    for d in pmap_staged(_dispatch, [(task_regimes, (p, True, tier, seed)) for p in ps], [(task, (p, cse, tier, seed)) for p in ps for cse in cses] + extra):
         rep.merge(d)
     rep.bounds = {"programs": [p.id for p in ps], "cse": list(cses), "inputs": "all reals (dt, state, control, calibration) where the expressions are defined", "outside": "floating-point rounding; programs outside the corpus"}
     rep.assumptions = ["reals for doubles", "UF abstraction of sin/cos/exp with derivative rules applied by the harness differentiator (sin'->cos, cos'->-sin, exp'->exp)", "covariance validity gates of the constructor treated as assumptions"]
